@@ -10,22 +10,22 @@ HOOK_COMMITS = subprocess.run(
 CLAIMED = {
  "C01": ("5-C01", "model-based stateful PBT (proptest): generated send/flush/save/restart/purge/retention histories under generated storage configs, full read vs. reference model after every accepted send",
          "Randomised exploration of histories x configurations with an independent per-partition offset model; every accepted send is followed by a full read that must list each accepted offset exactly once with the sent content, and rejected / duplicate sends must consume no offset. Right level: the property quantifies over unbounded histories; exhaustive enumeration is impossible, absence is not claimed."),
- "C02": ("5-C02", "model-based stateful PBT with polls interleaved at every position + differential over message-cache modes (worker processes off/big/tiny) and index cache",
+ "C02": ("5-C02", "model-based stateful PBT with polls interleaved at every position + differential over message-cache modes (worker processes off/big/tiny) and index cache; retention passes at low weight so that 'retained' also means a log whose head was removed; batches above 2 MiB",
          "Every generated poll (offset/timestamp/first/last/next, boundary offsets, counts) is compared element-wise (offset,id,payload,headers,checksum via independent CRC32,timestamp under a frozen clock) with the model slice; label counters show how many polls spanned disk+buffer, several segments, later segments, restart+append."),
  "C03": ("5-C03", "model-based stateful PBT with 1..n clean restarts at arbitrary positions (incl. index files removed), traffic continuing after each restart",
          "Snapshot-before vs. after-restart comparison through the model: after every restart every partition is fully re-read and must equal what was accepted; subsequent sends must continue at the next offset."),
  "C14": ("5-C14", "model-based stateful PBT with a harness-controlled clock (hook H2) and deterministic maintenance passes (hook H3); validity predicate over the set of deleted messages",
          "For each generated maintenance pass the deleted set must be a union of whole closed segments whose newest message is expired under the model's timestamps; offsets, remaining content, below-earliest polls and restart-after-pass are checked."),
- "C15": ("5-C15", "model-based stateful PBT over size limits / delete-oldest settings; accept-refuse oracle keyed on the size the server itself reports",
-         "Sends attempted while the reported topic size is at/above the limit must be refused iff deletion of oldest segments is disabled; clean-up may only remove the oldest closed segment per partition; limits below one segment must be rejected."),
- "C16": ("5-C16", "model-based stateful PBT; counters compared after every step with the model (counts) and differentially before/after restart (sizes)",
-         "Partition/topic/stream/stats message counts and segment/partition counts must equal the model after every step; sizes must be sums of their parts, zero for empty entities, never wrapped, and identical before and after a clean restart following a full flush."),
+ "C15": ("5-C15", "model-based stateful PBT over size limits / delete-oldest settings; accept-refuse oracle keyed on the size the server itself reports; rotation-unchanged-by-refused-sends relation; sibling topic with data in the same stream",
+         "Sends attempted while the reported topic size is at/above the limit must be refused iff deletion of oldest segments is disabled; clean-up may only remove the oldest closed segment per partition and only from a topic that is itself almost full (whatever sibling topics hold); a refused send changes nothing, the balanced rotation included; limits below one segment must be rejected."),
+ "C16": ("5-C16", "model-based stateful PBT; counters compared after every step with the model (counts) and differentially before/after restart (sizes), with a sibling topic and a sibling stream (sums over topics and streams), encryption on/off; plus the catalogue engine's statistics comparison after every command over a changing catalogue",
+         "Partition/topic/stream/stats message counts and segment/partition counts must equal the model after every step; sizes must be sums of their parts, zero for empty entities, never wrapped, and identical before and after a clean restart following a full flush; a stream must equal the sum over its topics and the statistics the sums over all streams, with exact stream / topic / partition / segment / group counts (topics without partitions included)."),
  "C17": ("5-C17", "model-based stateful PBT with metamorphic key-stability relation and rotation-window validity predicate, 1..12 partitions changing over time",
          "Explicit partition: stored exactly there or refused with nothing stored; key: same (key,count) => same partition also across restart, never recomputing the hash; balanced: any count consecutive sends hit count distinct partitions; every send lands in exactly one partition."),
  "C18": ("5-C18", "model-based stateful PBT with a seen-id set per partition; repeats within a batch, across batches, across flush and restart; dedup off as control",
          "The kept/dropped decision for every message of every batch must equal the model's first-occurrence rule, dropped messages consume no offset, distinct ids are never dropped, and with dedup off everything is stored."),
- "C19": ("5-C19", "model-based stateful PBT with encryption on + byte search of every file for every sent payload (>=8 bytes) + restarts under the same / another key",
-         "Polled payloads equal sent payloads; no payload occurs in clear in any file under the data directory; restart with another key must refuse to start or deliver nothing; restart with the right key restores everything."),
+ "C19": ("5-C19", "model-based stateful PBT with encryption on + byte search of every file for every sent payload (>=8 bytes) + restarts under the same / another key; component-level round-trip / tamper / truncation PBT on the SDK's AES-256-GCM encryptor",
+         "Polled payloads equal sent payloads; no payload occurs in clear in any file under the data directory; restart with another key must refuse to start or deliver nothing; restart with the right key restores everything. Component level: decrypt(encrypt(x)) == x for every length incl. 0, another key rejects, every changed or truncated ciphertext is an error, nothing panics."),
 }
 
 NOT_YET = {
